@@ -176,7 +176,7 @@ Proof.
       apply Body. auto.
     + destruct (1000 * full <? alloc_shared t s p) eqn:Hcap; [|discriminate].
       destruct (subseteqb X (free_shar s p) && (csize X =? full)) eqn:HX; [|discriminate].
-      destruct (desc_safeb t s p X && desc_users_okb t s p X) eqn:HDS; [|discriminate].
+      destruct (spare_okb t s p X) eqn:HDS; [|discriminate].
       apply andb_true_iff in HX as [HX Hsz]. apply subseteqb_true in HX. apply Z.eqb_eq in Hsz.
       apply Body. right; right. split; [exact HX|lia].
   - destruct (bool_decide (X = ∅)) eqn:HX; [|discriminate]. apply bool_decide_eq_true in HX. subst X.
@@ -281,7 +281,7 @@ Proof.
     + destruct (subseteqb X (free_iso s p) && (csize X =? full)); [|discriminate]. apply Body.
     + destruct (1000 * full <? alloc_shared t s p); [|discriminate].
       destruct (subseteqb X (free_shar s p) && (csize X =? full)); [|discriminate].
-      destruct (desc_safeb t s p X && desc_users_okb t s p X); [|discriminate]. apply Body.
+      destruct (spare_okb t s p X); [|discriminate]. apply Body.
   - destruct (bool_decide (X = ∅)); [|discriminate]. apply Body.
 Qed.
 
@@ -388,6 +388,20 @@ Proof.
   rewrite HX. apply Z.leb_le. exact (HC d Hd).
 Qed.
 
+Lemma spare_okb_safe s p (X : cset) : Cap s -> spare_okb t s p X = true -> desc_safeb t s p X = true.
+Proof.
+  intros HC H. unfold spare_okb in H. rewrite forallb_forall in H. unfold desc_safeb. apply forallb_forall.
+  intros d Hd. specialize (H d Hd). apply in_pools_iff in Hd.
+  destruct (anc t p d); cbn [negb orb] in *; [|reflexivity]. destruct (Nat.eqb d p); cbn [orb] in *; [reflexivity|].
+  apply Z.leb_le in H. apply Z.leb_le. specialize (HC d Hd). unfold need_of in H.
+  set (g := granted_sub t (gr_shared s) d) in *. set (f := csize (free_shar s d)) in *.
+  set (k := csize (free_shar s d ∖ X)) in *.
+  assert (Hc : (g + 999) / 1000 <= f) by (assert ((g + 999) / 1000 < f + 1) by (apply Z.div_lt_upper_bound; lia); lia).
+  assert (Hm : (g + 999) / 1000 <= Z.min (Z.max ((g + 999) / 1000) (if has_shared_user s d then 1 else 0)) f) by lia.
+  assert (Hk : (g + 999) / 1000 <= k) by lia.
+  pose proof (Z.div_mod (g + 999) 1000 ltac:(lia)) as Hdm. pose proof (Z.mod_pos_bound (g + 999) 1000 ltac:(lia)). lia.
+Qed.
+
 Lemma ta_alloc_guard s cid r p X s' :
   tree_wf2 -> Inv t s -> Cap s -> ta_alloc t s cid r p X = Ok s' -> desc_safeb t s p X = true.
 Proof.
@@ -400,8 +414,8 @@ Proof.
       apply desc_safeb_of_cap; [exact HC|]. intros d. exact (iso_part_harmless s p d X Hwf HI HX).
     + destruct (1000 * full <? alloc_shared t s p); [|discriminate].
       destruct (subseteqb X (free_shar s p) && (csize X =? full)); [|discriminate].
-      destruct (desc_safeb t s p X && desc_users_okb t s p X) eqn:HDS; [|discriminate].
-      apply andb_true_iff in HDS as [HDS _]. intros _. exact HDS.
+      destruct (spare_okb t s p X) eqn:HDS; [|discriminate]. intros _.
+      exact (spare_okb_safe s p X HC HDS).
   - destruct (bool_decide (X = ∅)) eqn:HX; [|discriminate]. apply bool_decide_eq_true in HX. subst X. intros _.
     apply desc_safeb_of_cap; [exact HC|]. intros d. set_solver.
 Qed.
